@@ -515,7 +515,7 @@ func (c *VC) strConcat(st *State, a, b *Term) *Term {
 
 func (c *VC) sliceRead(st *State, s, i *Term, elemT types.Type) *Term {
 	it := types.Typ[types.Int]
-	_, h := c.sliceHeap(st, c.sortOf(elemT))
+	_, h := c.sliceHeap(st, elemT)
 	v := c.sel(c.sel(h, mkField(s, "sl_base")), c.binop(token.ADD, mkField(s, "sl_off"), i, it))
 	return v
 }
@@ -768,7 +768,7 @@ func (c *VC) evalCompositeLit(st *State, e *ast.CompositeLit) *Term {
 		}
 		base := st.alloc
 		st.alloc = c.name("alloc", mk("+", sortInt, st.alloc, intLit64(1)))
-		hn, h := c.sliceHeap(st, es)
+		hn, h := c.sliceHeap(st, u.Elem())
 		st.heaps[hn] = mkStore(h, base, row)
 		n := c.idxLit(max)
 		return mkCtor(c.sliceSort(), base, c.idxLit(0), n, n)
@@ -829,7 +829,7 @@ func (c *VC) assign(st *State, lhs ast.Expr, v *Term) {
 			s := c.eval(st, l.X)
 			i := c.toIdx(c.eval(st, l.Index), c.typeOf(l.Index))
 			c.panicObl(st, "index", text, l.Pos(), c.inBounds(i, mkField(s, "sl_len")))
-			hn, h := c.sliceHeap(st, c.sortOf(u.Elem()))
+			hn, h := c.sliceHeap(st, u.Elem())
 			base := mkField(s, "sl_base")
 			row := c.sel(h, base)
 			wi := c.binop(token.ADD, mkField(s, "sl_off"), i, it)
